@@ -29,7 +29,11 @@ def operand(regs, o):
 
 def run(prog, x, ap):
     """evaluate; returns list of outputs.  `ap` is the algopy module."""
-    regs = []
+    return run_into(prog, x, ap, [])
+
+
+def run_into(prog, x, ap, regs):
+    """evaluate the instructions of prog, continuing the register file `regs` (so that a program can be run in two parts)"""
     for ins in prog['instrs']:
         k = ins[0]
         if k == 'x':
@@ -66,6 +70,13 @@ def run(prog, x, ap):
             regs[ins[1]][ins[2]] = operand(regs, ins[3])
         elif k == 'set2':
             regs[ins[1]][ins[2], ins[3]] = operand(regs, ins[4])
+        elif k == 'getsl':
+            idx = tuple(Ellipsis if it == '...' else (slice(None) if it == ':' else (slice(it[0], it[1]) if isinstance(it, list) else it)) for it in ins[2])
+            regs.append(regs[ins[1]][idx if len(idx) != 1 else idx[0]])
+        elif k == 'setsl':
+            # assignment through a general basic index; the right-hand side may be broadcast into the target
+            idx = tuple(Ellipsis if it == '...' else (slice(None) if it == ':' else (slice(it[0], it[1]) if isinstance(it, list) else it)) for it in ins[2])
+            regs[ins[1]][idx if len(idx) != 1 else idx[0]] = operand(regs, ins[3])
         elif k == 'get':
             regs.append(regs[ins[1]][ins[2]])
         elif k == 'get2':
@@ -86,6 +97,11 @@ def run(prog, x, ap):
             regs.append(ap.trace(regs[ins[1]]))
         elif k == 'outer':
             regs.append(ap.outer(regs[ins[1]], regs[ins[2]]))
+        elif k == 'fftreal':
+            import importlib
+            fft = importlib.import_module(ap.__name__ + '.fft')
+            z = (fft.fft if ins[3] == 'fft' else fft.ifft)(regs[ins[1]], axis=ins[2])       # keyword argument recorded with the node
+            regs.append(ap.real(z) if ins[4] == 're' else ap.imag(z))
         elif k == 'symvec':
             regs.append(ap.symvec(regs[ins[1]], ins[2]))
         elif k == 'vecsym':
@@ -102,7 +118,7 @@ def run(prog, x, ap):
 
 
 def creates_reg(ins):
-    return ins[0] not in ('set', 'set2')
+    return ins[0] not in ('set', 'set2', 'setsl')
 
 
 class Gen:
@@ -186,10 +202,25 @@ class Gen:
             if self.rng.random() < 0.3:
                 v = self.emit(['un', self.rng.choice(['square'] if self.rational else ['sin', 'cos', 'square']), v], 's')
             self.emit(['set', buf, k2, ['r', v]])
+        extra = None
+        if not self.rational and self.rng.random() < 0.4:
+            # accumulator started from the integer 0 (builtin sum(), acc = 0): acc = 0 + view must be a NEW value, not the view itself,
+            # because the cell is overwritten afterwards; reflected forms with the neutral elements 0 and 1 on the left
+            k0 = self.rng.randrange(n)
+            g0 = self.emit(['get', buf, k0], 's')
+            form = self.rng.choice([['add', 0], ['add', 0.0], ['mul', 1], ['mul', 1.0]])
+            acc = self.emit(['bin', form[0], ['c', form[1]], ['r', g0]], 's')
+            self.emit(['set', buf, k0, ['r', self.pick_scalar()]])
+            g1 = self.emit(['get', buf, k0], 's')
+            extra = self.emit(['bin', 'add', ['r', acc], ['r', g1]], 's')
         outs = [self.emit(['get', buf, k], 's') for k in range(n)]
         if not self.scalar_only and self.rng.random() < 0.5:
-            return self.emit(['sum', buf], 's')
-        return self.rng.choice(outs)
+            res = self.emit(['sum', buf], 's')
+        else:
+            res = self.rng.choice(outs)
+        if extra is not None:
+            res = self.emit(['bin', 'add', ['r', res], ['r', extra]], 's')
+        return res
 
     def vector_block(self):
         n = min(self.N, self.rng.randint(2, 3))
@@ -201,6 +232,18 @@ class Gen:
             for k in range(n):
                 self.emit(['set', v, k, ['r', self.pick_scalar()]])
         r = self.rng.random()
+        if r < 0.15:
+            # a constant ndarray that is LARGER than the traced operand (the traced operand is the one that is broadcast), either side,
+            # every operator
+            op = self.rng.choice(['add', 'sub', 'mul', 'div', 'div'])
+            big = [[self.rng.choice([0.5, -1.0, 2.0, 1.5, -0.25, 4.0]) for _ in range(n)] for _ in range(2)]
+            small = self.rng.choice([v, self.pick_scalar()])
+            a_, b_ = (['r', small], ['a', big]) if (op == 'div' or self.rng.random() < 0.6) else (['a', big], ['r', small])
+            if op == 'div' and b_[0] == 'r':
+                pass
+            m = self.emit(['bin', op, a_, b_], ('m', 2, n))
+            w = self.emit(['bin', 'mul', ['r', m], ['a', [[self.rng.choice([0.5, 1.0, -1.0, 2.0]) for _ in range(n)] for _ in range(2)]]], ('m', 2, n))
+            return self.emit(['sum', w], 's')
         if r < 0.3:
             w = self.emit(['bin', 'mul', ['r', v], ['a', [self.rng.choice([0.5, -1.0, 2.0]) for _ in range(n)]]], ('v', n))
             return self.emit(['sum', w], 's')
@@ -277,8 +320,9 @@ class Gen:
             B = self.emit(['bin', 'mul', ['r', M], ['r', self.pick_scalar()]], ('m', n, n))
             X = self.emit(['solve', M, B], ('m', n, n)); return self.emit(['sum', X], 's')
         P = self.emit(['dot', M, M], ('m', n, n))
-        s0 = self.emit(['sumaxis', P, self.rng.choice([0, 1, -1])], ('v', n))
-        return self.emit(['sum', s0], 's')
+        s0 = self.emit(['sumaxis', P, self.rng.choice([0, 1, -1, -2])], ('v', n))
+        w = self.emit(['bin', 'mul', ['r', s0], ['a', self.rng.sample([0.5, -1.0, 2.0, 1.5], n)]], ('v', n))     # distinct weights: the axis matters
+        return self.emit(['sum', w], 's')
 
     def rect_block(self):
         """rectangular matrix and vectors built from scalars; dot with every operand rank mix (matrix.vector, vector.matrix,
@@ -296,8 +340,27 @@ class Gen:
             return v
         def carr(*shape):
             return numpy.array([self.rng.choice([0.5, -1.0, 2.0, 1.5, -0.25]) for _ in range(int(numpy.prod(shape)))]).reshape(shape).tolist()
-        kind = self.rng.choice(['mv', 'vm', 'mm', 'mc', 'cm', 'mcv', 'cvm'])
-        if kind == 'mv':
+        kind = self.rng.choice(['mv', 'vm', 'mm', 'mc', 'cm', 'mcv', 'cvm', 'viewreshape', 'viewreshape', 'fft', 'fft'])
+        if kind == 'viewreshape':
+            # reshape / transpose of VIEWS (a row, a block of rows, a reshape of a reshape): the adjoint must flow back into the parent
+            if self.rng.random() < 0.5:
+                vw = self.emit(['get', M, self.rng.randrange(r_)], ('v', c_)); nel = c_
+            else:
+                vw = self.emit(['getsl', M, [[0, 2]]], ('m', 2, c_)); nel = 2 * c_
+            r1 = self.emit(['reshape', vw, [nel, 1]], ('m', nel, 1))
+            r2 = self.emit(['reshape', r1, [nel]], ('v', nel))
+            z = self.emit(['bin', 'mul', ['r', r2], ['r', r2]], ('v', nel)); n = (nel,)
+            # the parent is used again afterwards, so adjoints accumulate in the same cells
+            w = self.emit(['bin', 'mul', ['r', z], ['a', carr(*n)]], ('a',) + n)
+            s1 = self.emit(['sum', w], 's')
+            w2 = self.emit(['bin', 'mul', ['r', M], ['a', carr(r_, c_)]], ('m', r_, c_))
+            s2 = self.emit(['sum', w2], 's')
+            return self.emit(['bin', 'add', ['r', s1], ['r', s2]], 's')
+        if kind == 'fft':
+            # discrete Fourier transform along an axis given by KEYWORD (recorded with the node), real or imaginary part
+            ax = self.rng.choice([0, 1, -1, -2])
+            z = self.emit(['fftreal', M, ax, self.rng.choice(['fft', 'ifft']), self.rng.choice(['re', 'im'])], ('m', r_, c_)); n = (r_, c_)
+        elif kind == 'mv':
             z = self.emit(['dot', M, vec(c_)], ('v', r_)); n = (r_,)
         elif kind == 'vm':
             z = self.emit(['dot', vec(r_), M], ('v', c_)); n = (c_,)
@@ -316,6 +379,30 @@ class Gen:
         else:
             z = self.emit(['cdot', carr(r_), M], ('v', c_)); n = (c_,)
         w = self.emit(['bin', 'mul', ['r', z], ['a', carr(*n)]], ('a',) + n)
+        return self.emit(['sum', w], 's')
+
+    def bcast_block(self):
+        """in-place writes whose right-hand side is broadcast into the target (scalar into a slice / a whole matrix, vector into rows,
+        column into a block), then sums over single axes with non-uniform weights downstream"""
+        r_, c_ = self.rng.choice([(2, 3), (3, 2), (2, 2)])
+        B = self.emit(['zeros2', r_, c_], 'bufm')
+        self.emit(['setsl', B, ['...'], ['r', self.pick_scalar()]])                    # scalar into everything
+        v = self.emit(['zeros', c_], 'bufv')
+        self.emit(['setsl', v, [[0, c_ - 1]], ['r', self.pick_scalar()]])            # scalar into a slice of a vector
+        self.emit(['set', v, c_ - 1, ['r', self.pick_scalar()]])
+        self.emit(['setsl', B, [self.rng.randrange(r_)], ['r', v]])                    # vector into a row
+        col = self.emit(['zeros2', r_, 1], 'bufm')
+        for i in range(r_):
+            self.emit(['set2', col, i, 0, ['r', self.pick_scalar()]])
+        if self.rng.random() < 0.7:
+            self.emit(['setsl', B, [':', [0, 2]], ['r', col]])                         # column broadcast into a block
+        if self.rng.random() < 0.5:
+            self.emit(['setsl', B, [':'], ['r', v]])                                   # vector broadcast over all rows
+            self.emit(['set2', B, 0, 0, ['r', self.pick_scalar()]])
+        ax = self.rng.choice([0, 1, -1, -2])
+        n_out = c_ if ax in (0, -2) else r_
+        s0 = self.emit(['sumaxis', B, ax], ('v', n_out))
+        w = self.emit(['bin', 'mul', ['r', s0], ['a', self.rng.sample([0.5, -1.0, 2.0, 1.5, -0.25], n_out)]], ('v', n_out))
         return self.emit(['sum', w], 's')
 
     def fact_block(self):
@@ -381,6 +468,8 @@ class Gen:
                 outs.append(self.fact_block())
             elif not self.scalar_only and self.linalg and r < 0.52 and not self.traced_pow:
                 outs.append(self.rect_block())
+            elif not self.scalar_only and self.buffers and r < 0.57 and not self.traced_pow:
+                outs.append(self.bcast_block())
             elif self.traced_pow and r < 0.52:
                 a = self.pick_scalar(); b = self.pick_scalar()
                 sq = self.emit(['un', 'square', a], 's')
@@ -476,6 +565,14 @@ def kernel_programs(rng, ap, reps=2):
             if f in ('exp', 'expm1'):
                 a = g.emit(['un', 'sin', a], 's')
             out.append(('un:' + f, finish(g, g.emit(['un', f, a], 's'))))
+        for f in UN_ANY + ['log1p']:
+            # applied DIRECTLY to a product of inputs (no bounded wrapper, no shift): with inputs of small magnitude the argument
+            # itself is small, where (x + c) - c style temporaries lose digits
+            g = Gen(rng, 2)
+            g.emit(['x', 0], 's'); g.emit(['x', 1], 's')
+            a = g.emit(['bin', 'mul', ['r', 0], ['r', 1]], 's')
+            a = g.emit(['bin', 'mul', ['r', a], ['c', 0.0625]], 's')          # |a| <= 1/4 on the generator's input range
+            out.append(('un-direct:' + f, finish(g, g.emit(['un', f, a], 's'))))
         for f in UN_POS:
             g, a = start()
             sq = g.emit(['un', 'square', a], 's')
@@ -494,7 +591,7 @@ def kernel_programs(rng, ap, reps=2):
                 l = ['r', a] if form[0] == 'r' else ['c', 1.75]
                 r_ = ['r', den] if form[1] == 'r' else ['c', -2.5]
                 out.append(('bin:%s:%s' % (op, form), finish(g, g.emit(['bin', op, l, r_], 's'))))
-    for name, k in [('buffer_block', 3), ('vector_block', 8), ('matrix_block', 14), ('rect_block', 10), ('fact_block', 8)]:
+    for name, k in [('buffer_block', 3), ('vector_block', 8), ('matrix_block', 14), ('rect_block', 10), ('fact_block', 8), ('bcast_block', 6)]:
         for _ in range(k * reps // 2 if reps > 1 else k):
             g, a = start(N=rng.randint(2, 4))
             out.append((name, finish(g, getattr(g, name)())))
